@@ -119,6 +119,9 @@ def algebraic_root(s, q):
         r = _exact_root(v, q)
         if r is not None:
             return Sc(r)
+        if _concrete_mode():
+            # translation validation (shim with concrete values, real LAPACK): the double NumPy would compute
+            return Sc(Fraction(float(v) ** float(q)))
     for (a, qq, res) in S.roots:
         if qq == q:
             e = a.eq_term(s)
@@ -176,11 +179,23 @@ def _exact_root(v, q):
     return r ** num if num >= 0 else Fraction(1) / (r ** (-num))
 
 
+def _concrete_mode():
+    try:
+        from . import lapack
+        return isinstance(lapack.policy(), lapack.ConcretePolicy)
+    except Exception:
+        return False
+
+
 def transcendental(name, s):
     """exp / sin / cos as uninterpreted real functions (complex exp split)."""
     from .scalar import Sc, zterm
     if s.is_concrete and s.re == 0 and s.im == 0:
         return Sc({'exp': 1, 'sin': 0, 'cos': 1}[name])
+    if s.is_concrete and _concrete_mode():
+        import cmath
+        z = getattr(cmath, name)(complex(float(Fraction(s.re)), float(Fraction(s.im)) if s.im != 0 else 0.0))
+        return Sc(Fraction(z.real), Fraction(z.imag)) if abs(z.imag) > 0 else Sc(Fraction(z.real))
 
     def uf(n):
         if n not in S.trans:
